@@ -155,7 +155,7 @@ func resolverSelfTest() string {
 		{"//evil.test@site.test", "http", "same-site"}, {"//site.test@evil.test", "http", "off-site-host"}, {"//a:b@evil.test", "http", "off-site-host"},
 		{"javascript:alert(1)", "http", "non-http-scheme"}, {"JaVaScRiPt:alert(1)", "https", "non-http-scheme"}, {"data:text/html,x", "http", "non-http-scheme"}, {"mailto:a@b", "http", "non-http-scheme"},
 		{"\t//evil.test", "http", "off-site-host"}, {"/\t/evil.test", "http", "off-site-host"}, {"/\n/evil.test", "http", "off-site-host"}, {" //evil.test", "http", "off-site-host"}, {"\x00//evil.test", "http", "off-site-host"}, {"\x01//evil.test", "http", "off-site-host"}, {"\u00a0//evil.test", "http", "same-site"}, {"\x01\\/evil.test", "http", "off-site-host"},
-		{"/ /evil.test", "http", "same-site"}, {"/%2f/evil.test", "http", "same-site"}, {"/.//evil.test", "http", "same-site"}, {"1http://evil.test", "http", "same-site"}, {":evil.test", "http", "same-site"},
+		{"/ /evil.test", "http", "same-site"}, {"/#/../\\evil.test", "http", "same-site"}, {"/\\evil.test/", "http", "off-site-host"}, {"/%2f/evil.test", "http", "same-site"}, {"/.//evil.test", "http", "same-site"}, {"1http://evil.test", "http", "same-site"}, {":evil.test", "http", "same-site"},
 		{"ht\ttp://evil.test", "http", "off-site-host"}, {"//evil.test\\@site.test", "http", "off-site-host"},
 	}
 	for _, c := range cases {
